@@ -107,7 +107,10 @@ TopCalls == {i \in 1..Len(CallsNow) : CallsNow[i].frame = ""}
 RoutingOK == \A i \in TopCalls : Justified(Pr, CallsNow, i) /\ GateFirst(Pr, CallsNow, i)
 SignalsOK == \A i \in TopCalls :
                LET nd == NodeByName(Pr, CallsNow[i].node) IN
-               (\E w \in Names(nd.wait_for) : w \in PairKeys(Job.provided)) \/ WaitJustified(Pr, CallsNow, i)
+               \/ (\E w \in Names(nd.wait_for) : w \in PairKeys(Job.provided))
+               \/ (\E w \in Names(nd.wait_for) : \E j \in NodeIdx(Pr) :       \* resume path of an interrupt (no invocation logged)
+                      IsIntr(Pr.nodes[j]) /\ w \in Names(Pr.nodes[j].outputs) /\ DataOutputs(Pr.nodes[j]) \subseteq PairKeys(Job.provided))
+               \/ WaitJustified(Pr, CallsNow, i)
 ScopeOK   == \A i \in TopCalls : IdxOf(Pr, CallsNow[i].node) \in Downstream(Pr)
 StepBound == st.steps <= Pr.max_iter
 \* a node runs at most once per superstep
